@@ -21,12 +21,12 @@ type zzChunk struct {
 }
 
 type zzSCTPBackend struct {
-	chunks  []zzChunk
-	pos     int
-	off     int
-	writes  []zzChunk
-	reads   int
-	closed  bool
+	chunks []zzChunk
+	pos    int
+	off    int
+	writes []zzChunk
+	reads  int
+	closed bool
 }
 
 var zzSCTP *zzSCTPBackend
@@ -146,6 +146,8 @@ func zzC19_demux() {
 		if k >= len(ids[s]) {
 			return
 		}
+		vObserve("stream", uint64(st))
+		vObserve("hbh", uint64(m.Header.HopByHopID))
 		vAssert(m.Header.HopByHopID == uint32(1000*(s+1)+k) && m.Header.EndToEndID == ids[s][k], "each message is assembled from the bytes of one stream, in that stream's order")
 		got[s] = append(got[s], m.Header.EndToEndID)
 		// the reply goes to the stream the request arrived on
